@@ -392,6 +392,9 @@ impl Prop for C09 {
         out.set_exhaustive("hour_rand", false);
       }
       "compose" => {
+        // route equivalence of the objects this property reads (see routes.rs)
+        prop_run(env, out, "hroutes", env.tier.pick(1600, 64000) / nshards as u32, 8900 + shard as u64, crate::routes::hour_strategy(), &ev);
+        out.set_exhaustive("hroutes", false);
         // strided walks on fresh threads (see engine::stride_walks)
         stride_walks(env, out, "compose", env.tier.pick(800, 24000) / nshards as u32, 7000 + shard as u64, 0, (crate::model::NDAYS as i64) - 366, 800, &|x| vec![x, (x * 7919).rem_euclid(86400)], &ev);
         let total: u32 = env.tier.pick(32_000, 640_000);
@@ -430,6 +433,7 @@ impl Prop for C09 {
       "compose" => self.eval_compose(env, out, case),
       "stepped" => self.eval_stepped(env, out, case),
       "inverse" => self.eval_inverse(env, out, case),
+      "hroutes" => crate::routes::compare_hour_routes(env, out, "hroutes", case, (case.a[0].clamp(0, crate::model::NDAYS as i64 - 1)) as usize, case.a.get(1).cloned().unwrap_or(10), &crate::routes::hour_fields_c09),
       _ => panic!("unknown sub-check {}", sub),
     }
   }
